@@ -253,7 +253,7 @@ public:
   template <typename... Args>
   void construct(Args&&... args) {
     for (T *ii = m_data, *ei = m_data + m_size; ii != ei; ++ii)
-      new (ii) T(std::forward<Args>(args)...);
+      new (ii) T(args...); // not forwarded: args are reused for every element
   }
 
   template <typename... Args>
